@@ -109,6 +109,18 @@ def count_obligations(vfile):
     return len(re.findall(r"^\s*(Theorem|Lemma|Example|Corollary)\s", txt, re.M))
 
 
+def theorem_names(prop_files):
+    """names of the statements in the property files (what the evidence lists as proved)"""
+    names = []
+    for f in prop_files:
+        try:
+            with open(os.path.join(COQ, f)) as fh:
+                names += re.findall(r"^\s*(?:Theorem|Lemma|Example|Corollary)\s+([A-Za-z0-9_']+)", fh.read(), re.M)
+        except OSError:
+            pass
+    return names
+
+
 def build(prop_files, thorough=False):
     """Regenerate Generated.v from REPO, build the Coq development (full .vo), re-check the property
     files capturing Print Assumptions, extract and build the driver.  prop_files: list of paths
